@@ -312,6 +312,22 @@ class ShapeInterp:
                     return b.data - a.data
         return None
 
+    def neg_fact(self, test, fact, env, ctx):
+        """affine term known >= 0 when `test` does NOT hold"""
+        if fact is not None:
+            return Affine.const(-1) - fact              # not (f >= 0)  <=>  -f - 1 >= 0 over the integers
+        if isinstance(test, ast.Compare) and len(test.ops) == 1 and isinstance(test.ops[0], ast.Eq):
+            a = self.ev(test.left, env, ctx)
+            b = self.ev(test.comparators[0], env, ctx)
+            if a.kind == 'int' and b.kind == 'int':
+                d = b.data - a.data
+                # a != b together with a <= b (resp. a >= b) known from the loop intervals gives a strict inequality
+                if nonneg(d, ctx):
+                    return d - Affine.const(1)
+                if nonneg(Affine.const(0) - d, ctx):
+                    return Affine.const(0) - d - Affine.const(1)
+        return None
+
     # -- statements ------------------------------------------------------
     def run(self, env, ctx=None):
         ctx = ctx or Ctx()
@@ -391,6 +407,10 @@ class ShapeInterp:
             elif b:
                 env.clear()
                 env.update(e2)
+                # the tested branch leaves (return / raise / break / continue): what follows runs under the negated test
+                neg = self.neg_fact(s.test, fact, env, ctx)
+                if neg is not None and not s.orelse:
+                    ctx.facts.append(neg)
             else:
                 return False
             return True
@@ -423,6 +443,8 @@ class ShapeInterp:
                     env[k] = v if v.kind in ('scalar',) else UNKV
             env.pop(var, None)
             return True
+        if isinstance(s, (ast.Break, ast.Continue)):
+            return False
         if isinstance(s, (ast.Pass, ast.Import, ast.ImportFrom)):
             return True
         if isinstance(s, ast.While):
